@@ -239,6 +239,71 @@ fn check_mapper(out: &mut Out, rng: &mut Rng, corr: bool) {
             if !ok {
                 out.fail("mapper_inverse_laws", "category mapper maps are not mutually inverse / not in first-appearance order", input.clone());
             }
+            // the other two public constructors must give a mapper obeying the same laws: positional vector
+            // (index = position) and explicit category -> index map; plus index -> category (`get_cat`) and
+            // rejection of vectors that are not one-hot (all zero, two ones)
+            for ctor in ["from_positional_category_vec", "from_category_map"] {
+                let first2 = first.clone();
+                let queries2 = queries.clone();
+                let r2 = guard(move || {
+                    let m = if ctor == "from_positional_category_vec" {
+                        CategoryMapper::from_positional_category_vec(first2.clone())
+                    } else {
+                        let map: std::collections::HashMap<u16, usize> = first2.iter().enumerate().map(|(i, c)| (*c, i)).collect();
+                        CategoryMapper::from_category_map(map)
+                    };
+                    let k = m.num_categories();
+                    let mut bad: Vec<String> = vec![];
+                    if m.get_categories().to_vec() != first2 {
+                        bad.push(format!("get_categories() = {:?}, expected {:?}", m.get_categories(), first2));
+                    }
+                    if k != first2.len() {
+                        bad.push(format!("num_categories() = {}", k));
+                    }
+                    for (i, c) in first2.iter().enumerate() {
+                        if m.get_num(c) != Some(&i) {
+                            bad.push(format!("get_num({}) = {:?}, expected {}", c, m.get_num(c), i));
+                        }
+                        if i < k && m.get_cat(i) != c {
+                            bad.push(format!("get_cat({}) = {}, expected {}", i, m.get_cat(i), c));
+                        }
+                        match m.get_one_hot::<f64, Vec<f64>>(c) {
+                            None => bad.push(format!("get_one_hot({}) = None", c)),
+                            Some(v) => {
+                                let e: Vec<f64> = (0..first2.len()).map(|t| if t == i { 1.0 } else { 0.0 }).collect();
+                                if v != e {
+                                    bad.push(format!("get_one_hot({}) = {:?}", c, v));
+                                }
+                                match m.invert_one_hot::<f64, Vec<f64>>(v) {
+                                    Ok(b) if b == *c => {}
+                                    other => bad.push(format!("invert_one_hot(get_one_hot({})) = {:?}", c, other.ok())),
+                                }
+                            }
+                        }
+                    }
+                    for q in queries2.iter().filter(|q| !first2.contains(q)) {
+                        if m.get_num(q).is_some() || m.get_one_hot::<f64, Vec<f64>>(q).is_some() {
+                            bad.push(format!("unseen category {} is mapped", q));
+                        }
+                    }
+                    if m.invert_one_hot::<f64, Vec<f64>>(vec![0.0; first2.len()]).is_ok() {
+                        bad.push("invert_one_hot accepts the all-zero vector".into());
+                    }
+                    if first2.len() >= 2 && m.invert_one_hot::<f64, Vec<f64>>(vec![1.0; first2.len()]).is_ok() {
+                        bad.push("invert_one_hot accepts a vector with several ones".into());
+                    }
+                    bad
+                });
+                out.count(&format!("search:mapper:{}", ctor));
+                let mut w = input.clone();
+                w["constructor"] = json!(ctor);
+                w["categories_in_index_order"] = json!(first);
+                match r2 {
+                    Err(msg) => out.fail("mapper_inverse_laws", &format!("{}: panic: {}", ctor, msg), w),
+                    Ok(bad) if !bad.is_empty() => out.fail("mapper_inverse_laws", &format!("{}: {}", ctor, bad[0]), w),
+                    Ok(_) => {}
+                }
+            }
             if corr {
                 let term = format!(
                     "corr_mapper {} {} {} {} {} {}",
